@@ -192,7 +192,37 @@ fn check_c23(seed: u64, tier: Tier, replay: Option<String>) -> i32 {
     if let Some((i, _)) = pair_res.first() {
         acc.samples.push(json!({"double_fault_scenario": pairs[*i]}));
     }
-    let enumerated = baselines.len() + n_singles + n_pairs;
+    // ---- (a') enumerated two-run histories: a first publish that dies at each of its calls (what leaves
+    // the previous set moved aside, the new one not yet live, or debris next to the output), then a second
+    // builder run that goes through the real staging-directory creation and dies or fails at each of ITS calls
+    let mut two_run: Vec<Scenario> = vec![];
+    {
+        let probe = Scenario { init: Init::Dir, prev_gen: 0, runs: vec![PublishRun { new_gen: 1, plan: vec![], action: "commit".into() }, PublishRun { new_gen: 2, plan: vec![], action: "stage_and_commit".into() }], final_gen: None };
+        let mut sb = Sandbox::new("probe2");
+        let pev = c23::run_scenario(&mut sb, &gens, &probe);
+        if pev.harness_error.is_some() || pev.results != vec!["ok".to_string(), "ok".to_string()] || !pev.findings.is_empty() {
+            harness_error(&format!("fault-free two-run history (commit, then stage_and_commit) reported {:?} / {:?} (precondition)", pev.results, pev.findings));
+        }
+        let (l1, l2) = (pev.traces[0].len() as u64, pev.traces[1].len() as u64);
+        for init in [Init::Dir, Init::NoOutput] {
+            for c in 0..l1 {
+                for j in 0..l2 + 2 {
+                    for k2 in [FaultKind::Crash, FaultKind::Errno { errno: 5 }] {
+                        two_run.push(Scenario { init, prev_gen: 0, runs: vec![PublishRun { new_gen: 1, plan: vec![Fault { call: c, kind: FaultKind::Crash }], action: "commit".into() }, PublishRun { new_gen: 2, plan: vec![Fault { call: j, kind: k2 }], action: "stage_and_commit".into() }], final_gen: None });
+                    }
+                }
+            }
+        }
+    }
+    let two_res = par_map(&two_run, "enum2", 0, |sb, sc| c23::run_scenario(sb, &gens, sc));
+    for (i, ev) in &two_res {
+        acc.add(&two_run[*i], ev);
+    }
+    let n_two_run = two_run.len();
+    if let Some((i, _)) = two_res.first() {
+        acc.samples.push(json!({"two_run_scenario": two_run[*i]}));
+    }
+    let enumerated = baselines.len() + n_singles + n_pairs + n_two_run;
 
     println!("phase enumeration done at {:.1}s", (qpz_core::real_now_ns() - t0) as f64 / 1e9);
     // ---- (b) seeded multi-run histories ----
@@ -343,6 +373,7 @@ fn check_c23(seed: u64, tier: Tier, replay: Option<String>) -> i32 {
     extra.insert("enumerated_publish_scenarios".into(), json!(enumerated));
     extra.insert("enumerated_single_faults".into(), json!(n_singles));
     extra.insert("enumerated_fault_pairs".into(), json!(n_pairs));
+    extra.insert("enumerated_two_run_histories".into(), json!(n_two_run));
     extra.insert("seeded_histories".into(), json!(n_histories));
     extra.insert("full_pipeline_runs".into(), json!(n_gen));
     extra.insert("builder_child_processes".into(), json!(acc.child_runs));
